@@ -1,8 +1,10 @@
 """C04 — every used generic instantiation exists, is distinct and behaves correctly.
 
 Proof: GV.Props.C04 — the work-list collector (`Scan` + `Finish` + `propagate`, instance sets with cursors and ids) computes
-exactly the least set of instances closed under the uses of the program (sound, complete when it terminates), ids are
-injective and stable, the set does not depend on the order in which packages / seeds are visited, substitution composes.
+exactly the least set of instances closed under the uses of the program (sound, complete), it terminates whenever that set
+is finite (collect_terminates / collect_total), ids are injective, positional and stable, the set does not depend on the
+order in which packages / seeds are visited, substitution composes; without the LocalFree hypothesis both completeness and
+soundness are refuted by witnesses (function-local types inside other types: recorded findings).
 Ties (the program is generated FROM a term of the model: use-graph first, then rendered to Go):
   (a) program O-tie: multi-package generic programs, GopherJS under Node (plain + minify) vs native Go;
   (b) instance-set tie: the per-package instance sets with ids that typeparams.Collector produced in the same build
@@ -15,8 +17,10 @@ import shutil
 from . import common as C
 from . import progs
 
-THEOREMS = ["collect_sound", "collect_complete", "collect_exact", "ids_injective", "ids_stable", "collect_order_independent",
-            "subst_compose", "subst_closed", "collect_complete_full_counterexample", "reach_closed"]
+THEOREMS = ["collect_sound", "collect_complete", "collect_exact", "collect_terminates", "collect_total", "sortedOrder_covers",
+            "ids_injective", "ids_positions", "ids_stable", "insts_nodup", "collect_order_independent",
+            "subst_compose", "subst_closed", "reach_closed",
+            "collect_complete_full_counterexample", "collect_sound_full_counterexample"]
 
 # ----------------------------------------------------------------------------------------------------------------
 # type terms: ('b', name) | ('o', i) | ('n', i) | ('f', i) | ('S', t) | ('P', t) | ('C', t) | ('M', k, v) | ('N', defid, (args…))
@@ -529,9 +533,9 @@ class Gen:
         closed_only = not forward
         args = tuple(self.gen_type(P, ctx, c, 2, closed_only, owner_pos) for c in d.classes)
         if d.kind == "func":
-            style = "infer" if (generic_ctx and d.pkg != pkg) else rng.choice(["infer", "explicit"])
+            style = rng.choice(["infer", "explicit"])    # incl. pkg.F[τ](…) inside generic code (repair C04-qualified-instantiation-in-generic-body)
             return ('call', d.id, args, style)
-        return ('var', d.id, args)
+        return ('var', d.id, args, rng.random() < 0.4)
 
     def program(self):
         rng, size = self.rng, self.size
@@ -716,19 +720,24 @@ class Render:
                 else:
                     out.append("%s%s(%s)" % (ind, self.qual(d, pkg), vals))
             elif k == 'var':
-                _, c, args = st
+                c, args = st[1], st[2]
                 d = P.defs[c]
                 self.tmp += 1
                 v = "v%d" % self.tmp
                 tys = ", ".join(self.ty(a, pkg, own, nest) for a in args)
-                if d.kind == 'type':
-                    # own block: a variable of a named type of ANOTHER package in the scope chain of a function-local type
-                    # trips FindNestingFunc (finding C04-nesting-func-cross-package-positions)
+                if d.kind == 'type' and len(st) > 3 and st[3]:
+                    # in its own block
                     out.append("%s{" % ind)
                     out.append("%s\tvar %s %s[%s]" % (ind, v, self.qual(d, pkg), tys))
                     out.append("%s\t%s.Run()" % (ind, v))
                     out.append('%s\tbase.Emit("val:" + %s.Val())' % (ind, v))
                     out.append("%s}" % ind)
+                elif d.kind == 'type':
+                    # in the scope chain of the function-local types declared next to it (a foreign named type with methods:
+                    # FindNestingFunc must only look at functions of the local type's own package)
+                    out.append("%svar %s %s[%s]" % (ind, v, self.qual(d, pkg), tys))
+                    out.append("%s%s.Run()" % (ind, v))
+                    out.append('%sbase.Emit("val:" + %s.Val())' % (ind, v))
                 else:
                     out.append("%svar %s %s[%s]" % (ind, v, self.qual(d, pkg), tys))   # local generic type: identity through the registry, field method dispatch
                     out.append('%sbase.Emit("%s:" + base.Reg(any(%s)))' % (ind, d.name, v))
@@ -932,12 +941,6 @@ func Len[T any](xs []T) int { return len(xs) }
 
 WITNESSES = [
     # (id, class, files)
-    ("explicit-qualified-T", "explicit-qualified-instantiation-in-generic-body", {
-        "leaf/leaf.go": LEAF,
-        "main.go": 'package main\n\nimport "MOD/leaf"\n\nfunc F[T any](v T) int { return leaf.Len[T]([]T{v}) }\n\nfunc main() {\n\tprintln(F[int](1))\n\tprintln(F[string]("a"))\n}\n'}),
-    ("explicit-qualified-closed", "explicit-qualified-instantiation-in-generic-body", {
-        "leaf/leaf.go": LEAF,
-        "main.go": 'package main\n\nimport "MOD/leaf"\n\ntype W[T any] struct{ x T }\n\nfunc (w W[T]) M() int { return leaf.Len[string]([]string{"a"}) }\n\nfunc main() { println(W[int]{}.M()) }\n'}),
     ("local-type-as-type-argument", "local-type-as-type-argument", {
         "main.go": 'package main\n\ntype Box[T any] struct{ V T }\n\nfunc F[T any](v T) any {\n\ttype cell struct{ v T }\n\treturn Box[cell]{cell{v}}\n}\n\nfunc main() {\n\ta := F[int](1)\n\tb := F[string]("a")\n\tprintln(a == b)\n\t_, ok := a.(Box[int])\n\tprintln(ok)\n}\n'}),
     ("local-type-no-param-as-type-argument", "local-type-as-type-argument", {
@@ -951,7 +954,6 @@ WITNESSES = [
     ('local-type-in-anon-struct', "local-type-in-composite-type", {"main.go": 'package main\n\nfunc g[T any](x T) int {\n\ttype cell struct{ v T }\n\t_ = struct{ c cell }{}\n\treturn 1\n}\n\nfunc main() { println(g[int](1), g[string]("a")) }\n'}),
     ('local-type-independent-in-slice', "local-type-in-composite-type", {"main.go": 'package main\n\nfunc g[T any](x T) int {\n\ttype cell struct{ v T }\n\ttype tag struct{}; _ = []tag{{}}\n\treturn 1\n}\n\nfunc main() { println(g[int](1), g[string]("a")) }\n'}),
     ('local-generic-type-self-pointer', "local-type-in-composite-type", {"main.go": 'package main\n\nfunc g[T any](x T) int {\n\ttype cell struct{ v T }\n\ttype node[U any] struct{ next *node[U]; v T }; _ = node[int]{}\n\treturn 1\n}\n\nfunc main() { println(g[int](1), g[string]("a")) }\n'}),
-    ("nesting-func-cross-package-positions", "cross-package-position-confusion", {"p1/p1.go": 'package p1\n\ntype B[T any] struct{ A T }\n\nfunc (b *B[T]) Run() int {\n\tn := 0\n\tn++\n\tn++\n\tn++\n\tn++\n\tn++\n\tn++\n\tn++\n\tn++\n\tn++\n\tn++\n\tn++\n\tn++\n\tn++\n\tn++\n\tn++\n\tn++\n\tn++\n\tn++\n\tn++\n\treturn n\n}\n', "main.go": 'package main\n\nimport "MOD/p1"\n\nfunc F[T any](_ T) int {\n\ttype L struct{ V *T }\n\tvar l L\n\tvar v p1.B[T]\n\t_ = l\n\treturn v.Run()\n}\n\nfunc main() { println(F[int](1), F[string]("a")) }\n'}),
     ("same-named-local-types-across-packages", "same-named-local-types-across-packages", {"p1/p1.go": 'package p1\n\nfunc D[T any]() any { return (*T)(nil) }\n', "main.go": 'package main\n\nimport "MOD/p1"\n\nfunc main() {\n\tvar a, b any\n\t{\n\t\ttype X struct{ a int }\n\t\ta = p1.D[X]()\n\t}\n\t{\n\t\ttype X struct{ a int8 }\n\t\tb = p1.D[X]()\n\t}\n\tprintln(a == b)\n}\n'}),
 ]
 # controls: the neighbouring forms that must work
@@ -968,6 +970,13 @@ CONTROLS = [
     ('control-local-type-assert', {"main.go": 'package main\n\nfunc g[T any](x T) int {\n\ttype cell struct{ v T }\n\tvar e any = cell{x}; _, _ = e.(cell)\n\treturn 1\n}\n\nfunc main() { println(g[int](1), g[string]("a")) }\n'}),
     ("control-cross-package-var-in-inner-block", {"p1/p1.go": 'package p1\n\ntype B[T any] struct{ A T }\n\nfunc (b *B[T]) Run() int {\n\tn := 0\n\tn++\n\tn++\n\tn++\n\tn++\n\tn++\n\tn++\n\tn++\n\tn++\n\tn++\n\tn++\n\tn++\n\tn++\n\tn++\n\tn++\n\tn++\n\tn++\n\tn++\n\tn++\n\tn++\n\treturn n\n}\n', "main.go": 'package main\n\nimport "MOD/p1"\n\nfunc F[T any](_ T) int {\n\ttype L struct{ V *T }\n\tvar l L\n\t_ = l\n\t{\n\t\tvar v p1.B[T]\n\t\treturn v.Run()\n\t}\n}\n\nfunc main() { println(F[int](1), F[string]("a")) }\n'}),
     ("control-same-named-local-types-one-package", {"main.go": 'package main\n\nfunc D[T any]() any { return (*T)(nil) }\n\nfunc main() {\n\tvar a, b any\n\t{\n\t\ttype X struct{ a int }\n\t\ta = D[X]()\n\t}\n\t{\n\t\ttype X struct{ a int8 }\n\t\tb = D[X]()\n\t}\n\tprintln(a == b)\n}\n'}),
+    ("repaired-explicit-qualified-T", {
+        "leaf/leaf.go": LEAF,
+        "main.go": 'package main\n\nimport "MOD/leaf"\n\nfunc F[T any](v T) int { return leaf.Len[T]([]T{v}) }\n\nfunc main() {\n\tprintln(F[int](1))\n\tprintln(F[string]("a"))\n}\n'}),
+    ("repaired-explicit-qualified-closed", {
+        "leaf/leaf.go": LEAF,
+        "main.go": 'package main\n\nimport "MOD/leaf"\n\ntype W[T any] struct{ x T }\n\nfunc (w W[T]) M() int { return leaf.Len[string]([]string{"a"}) }\n\nfunc main() { println(W[int]{}.M()) }\n'}),
+    ("repaired-nesting-func-cross-package-positions", {"p1/p1.go": 'package p1\n\ntype B[T any] struct{ A T }\n\nfunc (b *B[T]) Run() int {\n\tn := 0\n\tn++\n\tn++\n\tn++\n\tn++\n\tn++\n\tn++\n\tn++\n\tn++\n\tn++\n\tn++\n\tn++\n\tn++\n\tn++\n\tn++\n\tn++\n\tn++\n\tn++\n\tn++\n\tn++\n\treturn n\n}\n', "main.go": 'package main\n\nimport "MOD/p1"\n\nfunc F[T any](_ T) int {\n\ttype L struct{ V *T }\n\tvar l L\n\tvar v p1.B[T]\n\t_ = l\n\treturn v.Run()\n}\n\nfunc main() { println(F[int](1), F[string]("a")) }\n'}),
     ("control-local-type-values", {
         "main.go": 'package main\n\nfunc g[T any](x T) any { type cell struct{ v T }; c := cell{x}; return &c }\nfunc h[T any](x T) any { type cell struct{ v T }; return cell{x} }\nfunc k[T any](x T) any { type pair[U any] struct{ v T; u U }; return pair[int]{x, 1} }\n\nfunc main() {\n\tprintln(g[int](1) == g[int](1), h[int](1) == h[int](1), h[int](1) == h[int8](1), k[int](1) == k[int](1), k[int](1) == k[string]("a"))\n}\n'}),
 ]
